@@ -185,7 +185,9 @@ class VectorizedOperatorGraph(DiGraph):
                         op_vars[var_key]["value"] = value
                         op_vars[var_key]["vtype"] = "input"
                     else:
-                        op_vars[var_key]["value"] = value if type(value) is list else [value]
+                        # (a list-valued default is copied: `append_values` extends this list in place, and the list that was
+                        # passed in is the default that the operator template keeps for all later compilations)
+                        op_vars[var_key]["value"] = list(value) if type(value) is list else [value]
                     _promote_int_dtype(op_vars[var_key], value)
 
             self.add_edges_from(op_graph.edges)
